@@ -72,12 +72,12 @@ const (
 
 type action struct {
 	Kind       string `json:"kind"`             // bootstrap | rotate | wipeout
-	Target     string `json:"target,omitempty"` // wipeout: "" (all) | ca | keys
+	Target     string `json:"target,omitempty"` // wipeout: the positional arguments, space separated: "" | ca | keys | all | "ca keys" | "keys ca"
 	RootCN     string `json:"root_cn,omitempty"`
 	SignCN     string `json:"sign_cn,omitempty"`     // "" = flag not passed (default)
 	RootSerial string `json:"root_serial,omitempty"` // "" = flag not passed (default 1)
 	SignSerial string `json:"sign_serial,omitempty"` // bootstrap: "" = default 2; rotate: "" = default next
-	Time       string `json:"time,omitempty"`        // RFC3339(Nano)
+	Time       string `json:"time,omitempty"`        // RFC3339(Nano); "" = --timestamp not passed (the command uses its own clock)
 	Overwrite  bool   `json:"overwrite,omitempty"`
 	KeepGoing  bool   `json:"keep_going,omitempty"`
 }
@@ -107,7 +107,9 @@ func (a action) String() string {
 			fmt.Fprintf(&b, " --rotated_key_serial_override=%s", a.SignSerial)
 		}
 	}
-	fmt.Fprintf(&b, " --timestamp=%s", a.Time)
+	if a.Time != "" {
+		fmt.Fprintf(&b, " --timestamp=%s", a.Time)
+	}
 	if a.Overwrite {
 		b.WriteString(" --overwrite")
 	}
@@ -120,9 +122,7 @@ func (a action) String() string {
 func (a action) args() []string {
 	args := []string{a.Kind}
 	if a.Kind == "wipeout" {
-		if a.Target != "" {
-			args = append(args, a.Target)
-		}
+		args = append(args, strings.Fields(a.Target)...)
 		return append(args, "--quiet")
 	}
 	if a.Kind == "bootstrap" {
@@ -141,7 +141,10 @@ func (a action) args() []string {
 	if a.SignCN != "" {
 		args = append(args, "--signing_key_cn="+a.SignCN)
 	}
-	args = append(args, "--timestamp="+a.Time, "--quiet")
+	if a.Time != "" {
+		args = append(args, "--timestamp="+a.Time)
+	}
+	args = append(args, "--quiet")
 	if a.Overwrite {
 		args = append(args, "--overwrite")
 	}
@@ -157,6 +160,25 @@ func (a action) when() time.Time {
 		panic("harness: bad action time " + a.Time)
 	}
 	return t
+}
+
+// wipes says what a wipeout command line names. The documented literals are ca and keys, no
+// argument means both. A command line that names neither literal (the property's own wording is
+// "wipeout ca|keys|all") can only mean everything: "wipeout leaves no key or certificate usable".
+// literal reports a command line outside the three documented forms.
+func (a action) wipes() (ca, keys, literal bool) {
+	for _, f := range strings.Fields(a.Target) {
+		switch f {
+		case "ca":
+			ca = true
+		case "keys":
+			keys = true
+		}
+	}
+	if !ca && !keys {
+		ca, keys = true, true
+	}
+	return ca, keys, !(a.Target == "" || a.Target == "ca" || a.Target == "keys")
 }
 
 func (a action) rootCN() string {
@@ -419,10 +441,25 @@ func (o *obs) same(p *obs) bool {
 // certExp is what the command that created a certificate implies about it.
 type certExp struct {
 	Serial     *big.Int
-	SerialKind string // initial | override | default-next
-	NotBefore  time.Time
-	Chain      int // number of the bootstrap that made the issuing root
+	SerialKind string // initial | override | default-next | unexpected-name
+	// The creation time lies in [NBLo, NBHi]: both are the --timestamp value (truncated to the
+	// second, the resolution of X.509 times) when the flag was passed; when it was omitted they are
+	// the instants the harness read right before and right after the command ran.
+	NBLo, NBHi time.Time
+	Name       string // key version name the certificate was created for
+	Chain      int    // number of the bootstrap that made the issuing root
 	Step       int
+}
+
+func (e *certExp) dated(c *x509.Certificate) bool {
+	return !c.NotBefore.Before(e.NBLo) && !c.NotBefore.After(e.NBHi)
+}
+
+func (e *certExp) whenText() string {
+	if e.NBLo.Equal(e.NBHi) {
+		return "at " + e.NBLo.UTC().Format(time.RFC3339)
+	}
+	return "without --timestamp, while the command ran"
 }
 
 type model struct {
@@ -445,6 +482,23 @@ type model struct {
 	knownHits     map[string]bool
 	stopped       bool
 	keyReuseNoted bool
+	inconclusive  bool
+	// the instants read right before / after the last command ran (only used for a command that was
+	// run without --timestamp: its certificates must be dated between the two)
+	runLo, runHi time.Time
+	// shape flags for the evidence classes
+	sawNoTime, sawKGCollision, sawLiteralWipe, sawNoClobberPressure, sawPubKeyJudged bool
+	maxRotInChain                                                                    int
+	chainOverState, rebootOverRotated                                                bool // the current chain was bootstrapped with --overwrite over existing state / and rotated since
+}
+
+// window returns the interval the certificates created by command a must be dated in.
+func (m *model) window(a action) (time.Time, time.Time) {
+	if a.Time != "" {
+		t := a.when().Truncate(time.Second)
+		return t, t
+	}
+	return m.runLo.Truncate(time.Second), m.runHi
 }
 
 func newModel(w *world) *model {
@@ -487,8 +541,10 @@ const keepGoingFamily = "C12/keep-going-kept-foreign-certificate/"
 // command carried --keep_going and not --overwrite, and the very same certificate was already
 // served by the authority (under any key version name) or stored as an object before the command
 // and is unchanged.
-func keptByKeepGoing(a action, prev, cur *obs, c *x509.Certificate) bool {
-	if !a.KeepGoing || a.Overwrite || prev == nil {
+func keptByKeepGoing(ca string, a action, prev, cur *obs, c *x509.Certificate) bool {
+	// The recorded finding lives in gcsca (upload / writeIfAllowed): memca has no keep-going
+	// behaviour, so nothing is excused there.
+	if ca != "localca" || !a.KeepGoing || a.Overwrite || prev == nil {
 		return false
 	}
 	for _, p := range prev.Certs {
@@ -523,13 +579,16 @@ func (m *model) step(t ev.TB, a action) bool {
 	if m.prev == nil {
 		o, err := w.observe(m.allNames)
 		if err != nil {
-			t.Fatalf("harness: initial observation: %v", err)
+			m.unobservable("initial", err)
+			return false
 		}
 		m.prev = o
 	}
 	prev := m.prev
 	m.hist = append(m.hist, a)
+	m.runLo = time.Now()
 	err, pan := w.run(a)
+	m.runHi = time.Now()
 	switch {
 	case pan != nil:
 		m.outcomes = append(m.outcomes, fmt.Sprintf("PANIC %v", pan))
@@ -540,7 +599,10 @@ func (m *model) step(t ev.TB, a action) bool {
 	}
 	cur, oerr := w.observe(m.allNames)
 	if oerr != nil {
-		t.Fatalf("harness: observation after %s: %v", a, oerr)
+		// The state the command left cannot be read back (e.g. a key file the key manager refuses to
+		// load): nothing can be judged, the case is counted as inconclusive instead of failing.
+		m.unobservable("after "+a.Kind, oerr)
+		return false
 	}
 	for n := range cur.Certs {
 		m.allNames[n] = true
@@ -554,19 +616,26 @@ func (m *model) step(t ev.TB, a action) bool {
 		m.report(t, "C12/panic", "%s panicked: %v", a.Kind, pan)
 		return false
 	}
+	if a.KeepGoing && !a.Overwrite && m.w.CA == "localca" && m.targetsExistingObject(a, prev) {
+		m.sawKGCollision = true
+		ev.Class("history", "step: --keep_going without --overwrite aimed at an existing object (store-backed authority)/"+a.Kind)
+	}
 
 	// --- no existing certificate object changes without overwrite permission (store-backed CA).
 	// Judged after every command, successful or not. wipeout ca|all removes objects by definition.
-	if !a.Overwrite && !(a.Kind == "wipeout" && a.Target != "keys") {
+	wipesCA, _, _ := a.wipes()
+	if !a.Overwrite && !(a.Kind == "wipeout" && wipesCA) {
 		var paths []string
 		for p := range prev.Objects {
 			paths = append(paths, p)
 		}
 		sort.Strings(paths)
+		judged := 0
 		for _, p := range paths {
 			if !isCertObject(p) {
 				continue
 			}
+			judged++
 			if now, ok := cur.Objects[p]; !ok || now != prev.Objects[p] {
 				what := "was replaced"
 				if !ok {
@@ -576,11 +645,24 @@ func (m *model) step(t ev.TB, a action) bool {
 				break
 			}
 		}
+		if judged > 0 && a.Kind != "wipeout" {
+			ev.Class("history", "step: no-clobber judged over existing .crt objects")
+			if m.targetsExistingObject(a, prev) {
+				m.sawNoClobberPressure = true
+				ev.Class("history", "step: no-clobber under pressure (command aimed at an existing object or manifest entry, no --overwrite)")
+			}
+		}
 	}
 
 	// --- a key version that existed before must not silently become a different key unless the
 	// command was allowed to replace it (bootstrap --overwrite regenerates the two fixed names).
-	for n, k := range prev.Keys {
+	var prevKeyNames []string
+	for n := range prev.Keys {
+		prevKeyNames = append(prevKeyNames, n)
+	}
+	sort.Strings(prevKeyNames)
+	for _, n := range prevKeyNames {
+		k := prev.Keys[n]
 		if now, ok := cur.Keys[n]; ok && now != k && !(a.Kind == "bootstrap" && a.Overwrite) {
 			key := "C12/key-version-name-reused"
 			if ch, ok := m.namesEver[n]; ok && ch < m.chain {
@@ -602,6 +684,22 @@ func (m *model) step(t ev.TB, a action) bool {
 		// subject, the invariants of C12 are stated for the states commands leave when they do what
 		// they say. The two clauses above were still judged. The history ends here.
 		ev.Class("history", "step: failed-with-side-effects(C10 domain)/"+a.Kind)
+		// "Only the current primary signing key can sign" is stated for the state after ANY command
+		// sequence, refused commands included. A key version that the refused command created, that is
+		// neither the recorded primary nor the root and that signs is judged here; everything else
+		// about the half-done command is failure atomicity (C10).
+		if cur.PrimName != "" {
+			var orphans []string
+			for n := range cur.Keys {
+				if _, was := prev.Keys[n]; !was && n != cur.PrimName && n != cur.RootName && cur.CanSign[n] {
+					orphans = append(orphans, n)
+				}
+			}
+			sort.Strings(orphans)
+			if len(orphans) > 0 {
+				m.report(t, "C12/failed-command-leaves-orphan-key-usable", "`%s` failed (%s) but left the new key version(s) %v alive: Signer.Sign succeeds for them although the primary key version is %q", a, m.outcomes[len(m.outcomes)-1], orphans, cur.PrimName)
+			}
+		}
 		m.c10Stop = true
 		return false
 	}
@@ -620,6 +718,12 @@ func (m *model) step(t ev.TB, a action) bool {
 	return !m.stopped
 }
 
+func (m *model) unobservable(where string, err error) {
+	m.inconclusive = true
+	ev.Class("history", "inconclusive/state-unobservable "+where)
+	ev.Note("C12: a history ended because the persistent state could not be read back (%s): %s | history: %s", where, firstLine(err.Error()), m.history())
+}
+
 func firstLine(s string) string {
 	if i := strings.IndexByte(s, '\n'); i >= 0 {
 		s = s[:i]
@@ -630,47 +734,85 @@ func firstLine(s string) string {
 	return s
 }
 
+// targetsExistingObject says whether command a, judged against the state before it, aims at a
+// certificate object or manifest entry that already exists (classification only).
+func (m *model) targetsExistingObject(a action, prev *obs) bool {
+	switch a.Kind {
+	case "bootstrap":
+		return prev.Root != nil || len(prev.Certs) > 0
+	case "rotate":
+		if a.SignSerial == "" || a.SignSerial == "0" {
+			return false
+		}
+		for _, c := range prev.Certs {
+			if c.Subject.CommonName == a.signCN() && c.Subject.SerialNumber == a.SignSerial {
+				return true
+			}
+		}
+	}
+	return false
+}
+
+// afterWipeout: "wipeout leaves no key or certificate usable", for the components the command
+// line names. Usable is read narrowly: a certificate is usable when the authority serves it (or
+// its store object still exists), a key when it signs (or its key file still exists). Names the
+// authority may keep recording and public keys it may keep serving are not judged.
 func (m *model) afterWipeout(t ev.TB, a action, prev, cur *obs) {
 	m.lastWipe = true
-	if a.Target != "keys" { // ca or all
-		if cur.Root != nil || cur.RootName != "" || cur.PrimName != "" || len(cur.Certs) > 0 {
+	wipesCA, wipesKeys, literal := a.wipes()
+	wk := func(key string) string {
+		if literal {
+			// one root cause whatever is left: the command line is not one of the documented forms and
+			// the command reported success without doing what it names
+			return "C12/wipeout-argument-silently-ignored"
+		}
+		return key
+	}
+	if literal {
+		m.sawLiteralWipe = true
+	}
+	if wipesCA {
+		if cur.Root != nil || len(cur.Certs) > 0 {
 			var left []string
 			for n := range cur.Certs {
 				left = append(left, n)
 			}
 			sort.Strings(left)
-			m.report(t, "C12/ca-readable-after-wipeout", "after `%s` the authority still answers: root version %q, primary %q, root certificate readable=%v, certificates for %v", a, cur.RootName, cur.PrimName, cur.Root != nil, left)
+			m.report(t, wk("C12/ca-readable-after-wipeout"), "`%s` succeeded but the authority still answers: root version %q, primary %q, root certificate readable=%v, certificates for %v", a, cur.RootName, cur.PrimName, cur.Root != nil, left)
 		}
+		var objs []string
 		for p := range cur.Objects {
 			if isCertObject(p) {
-				m.report(t, "C12/ca-object-left-after-wipeout", "after `%s` the store still holds %q", a, p)
-				break
+				objs = append(objs, p)
 			}
 		}
+		sort.Strings(objs)
+		if len(objs) > 0 {
+			m.report(t, wk("C12/ca-object-left-after-wipeout"), "`%s` succeeded but the store still holds %v", a, objs)
+		}
 	}
-	if a.Target != "ca" { // keys or all
+	if wipesKeys {
 		var left []string
 		for n, ok := range cur.CanSign {
 			if ok {
 				left = append(left, n)
 			}
 		}
-		for n := range cur.Keys {
-			if !cur.CanSign[n] {
-				left = append(left, n+"(public key)")
-			}
-		}
 		sort.Strings(left)
 		if len(left) > 0 {
-			m.report(t, "C12/key-usable-after-wipeout", "after `%s` these key versions are still usable: %v", a, left)
+			m.report(t, wk("C12/key-usable-after-wipeout"), "`%s` succeeded but these key versions still sign: %v", a, left)
 		}
 		if m.w.KM == "localkm" {
 			ents, _ := os.ReadDir(m.w.keyDir)
+			var files []string
 			for _, e := range ents {
 				if strings.HasSuffix(e.Name(), ".pem") {
-					m.report(t, "C12/key-file-left-after-wipeout", "after `%s` the key directory still holds %s", a, e.Name())
-					break
+					files = append(files, e.Name())
 				}
+			}
+			sort.Strings(files)
+			if len(files) > 0 {
+				m.report(t, wk("C12/key-file-left-after-wipeout"), "`%s` succeeded but the key directory still holds %v", a, files)
 			}
 		}
 		m.namesEver = map[string]int{}
@@ -701,6 +843,15 @@ func (m *model) newCerts(cur *obs, mk func(name string, c *x509.Certificate) *ce
 	return fresh
 }
 
+// unexpectedName is the expectation for a certificate that a command made appear under a key
+// version name other than the new primary's: it is a signing certificate issued by this command in
+// the current chain and is judged like one (no serial rule applies to it).
+func (m *model) unexpectedName(a action, n string) *certExp {
+	ev.Class("history", "step: command created a certificate under a non-primary key version name")
+	lo, hi := m.window(a)
+	return &certExp{SerialKind: "unexpected-name", NBLo: lo, NBHi: hi, Name: n, Chain: m.chain, Step: len(m.hist)}
+}
+
 func (m *model) afterBootstrap(t ev.TB, a action, prev, cur *obs) {
 	if prev.Root != nil {
 		m.cloneBoot = true
@@ -708,7 +859,8 @@ func (m *model) afterBootstrap(t ev.TB, a action, prev, cur *obs) {
 	if m.chain > 0 && m.lastWipe {
 		m.wipeThenBoot = true
 	}
-	if m.chain > 0 && a.Overwrite && (prev.hasKeys() || prev.Root != nil) {
+	m.chainOverState = m.chain > 0 && a.Overwrite && (prev.hasKeys() || prev.Root != nil)
+	if m.chainOverState {
 		m.rebootOver = true
 	}
 	m.lastWipe = false
@@ -734,18 +886,22 @@ func (m *model) afterBootstrap(t ev.TB, a action, prev, cur *obs) {
 	if a.SignSerial != "" {
 		serial, _ = new(big.Int).SetString(a.SignSerial, 10)
 	}
+	lo, hi := m.window(a)
+	if a.Time == "" {
+		m.sawNoTime = true
+	}
 	m.newCerts(cur, func(n string, c *x509.Certificate) *certExp {
 		if n != cur.PrimName {
-			return nil
+			return m.unexpectedName(a, n)
 		}
-		return &certExp{Serial: serial, SerialKind: "initial", NotBefore: a.when(), Chain: m.chain, Step: len(m.hist)}
+		return &certExp{Serial: serial, SerialKind: "initial", NBLo: lo, NBHi: hi, Name: n, Chain: m.chain, Step: len(m.hist)}
 	})
 	m.namesEver[cur.PrimName] = m.chain
 
 	// the root certificate made by this bootstrap
 	if prev.Root == nil || !bytes.Equal(prev.Root.Raw, cur.Root.Raw) {
 		r := cur.Root
-		if !r.NotBefore.Equal(a.when().Truncate(time.Second)) {
+		if r.NotBefore.Before(lo) || r.NotBefore.After(hi) {
 			m.report(t, "C12/root-not-dated-at-creation-time", "root certificate made by `%s` is %s", a, certLine(r))
 		}
 	}
@@ -755,6 +911,16 @@ func (m *model) afterRotate(t ev.TB, a action, prev, cur *obs) {
 	m.lastWipe = false
 	m.rotations++
 	m.rotSinceBoot++
+	if m.rotSinceBoot > m.maxRotInChain {
+		m.maxRotInChain = m.rotSinceBoot
+	}
+	if m.chainOverState {
+		m.rebootOverRotated = true
+	}
+	lo, hi := m.window(a)
+	if a.Time == "" {
+		m.sawNoTime = true
+	}
 	if !cur.hasCA() {
 		m.report(t, "C12/rotation-left-no-chain", "`%s` succeeded but the authority has root version %q, primary %q, root certificate: %s", a, cur.RootName, cur.PrimName, cur.RootErr)
 		m.stopped = true
@@ -785,9 +951,9 @@ func (m *model) afterRotate(t ev.TB, a action, prev, cur *obs) {
 	}
 	m.newCerts(cur, func(n string, c *x509.Certificate) *certExp {
 		if n != cur.PrimName {
-			return nil
+			return m.unexpectedName(a, n)
 		}
-		return &certExp{Serial: want, SerialKind: kind, NotBefore: a.when(), Chain: m.chain, Step: len(m.hist)}
+		return &certExp{Serial: want, SerialKind: kind, NBLo: lo, NBHi: hi, Name: n, Chain: m.chain, Step: len(m.hist)}
 	})
 	m.namesEver[cur.PrimName] = m.chain
 }
@@ -845,7 +1011,7 @@ func (m *model) judgeChain(t ev.TB, a action, prev, cur *obs) {
 		// A clause violated by a certificate that this command did not write because --keep_going
 		// (without --overwrite) made the store keep what was there is the recorded keep-going
 		// finding, whatever the clause; every other violation keeps its plain key.
-		kept := keptByKeepGoing(a, prev, cur, c)
+		kept := keptByKeepGoing(m.w.CA, a, prev, cur, c)
 		if kept {
 			who += " (pre-existing, left untouched by this --keep_going command)"
 		}
@@ -877,9 +1043,23 @@ func (m *model) judgeChain(t ev.TB, a action, prev, cur *obs) {
 		if c.SerialNumber.String() != c.Subject.SerialNumber {
 			m.report(t, ck("C12/cert-serial-differs-from-subject-serial"), "after `%s` the %s has certificate serial %v but subject serial %s: %s", a, who, c.SerialNumber, c.Subject.SerialNumber, certLine(c))
 		}
+		// the certificate of a key version certifies that key version's key (judged while the key is
+		// alive: the authority serving another key's certificate under this name breaks the chain of
+		// trust even if every field of that certificate is in order)
+		if kh, alive := cur.Keys[n]; alive {
+			m.sawPubKeyJudged = true
+			pub, _ := c.PublicKey.(*rsa.PublicKey)
+			if pub == nil || h(nonprod.RsaPublicKeyToPEM(pub)) != kh {
+				made := ""
+				if e != nil && e.Name != "" && e.Name != n {
+					made = fmt.Sprintf(" (it was created for key version %q by command %d)", e.Name, e.Step)
+				}
+				m.report(t, ck("C12/certificate-certifies-another-key"), "after `%s` the %s does not carry the public key Signer.PublicKey returns for %q%s: %s", a, who, n, made, certLine(c))
+			}
+		}
 		if e != nil {
-			if !c.NotBefore.Equal(e.NotBefore.Truncate(time.Second)) {
-				m.report(t, ck("C12/signing-cert-not-dated-at-creation-time"), "the %s was created by command %d at %s but is %s", who, e.Step, e.NotBefore.Format(time.RFC3339Nano), certLine(c))
+			if !e.dated(c) {
+				m.report(t, ck("C12/signing-cert-not-dated-at-creation-time"), "the %s was created by command %d %s but is %s", who, e.Step, e.whenText(), certLine(c))
 			}
 			if e.Serial != nil && c.Subject.SerialNumber != e.Serial.String() {
 				key := "C12/requested-serial-not-used"
@@ -946,14 +1126,21 @@ func genSerial(t *rapid.T, label string, avoid map[string]bool) string {
 		switch rapid.IntRange(0, 5).Draw(t, fmt.Sprintf("%sKind%d", label, i)) {
 		case 0, 1:
 			z = big.NewInt(int64(rapid.IntRange(1, 40).Draw(t, label+"Small")))
-		case 2, 3:
+		case 2:
 			z = big.NewInt(rapid.Int64Range(41, 1<<62).Draw(t, label+"Mid"))
+		case 3: // always beyond 64 bits (X.509 serials of 65..160 bits are ordinary)
+			z = new(big.Int).Lsh(big.NewInt(rapid.Int64Range(1<<40, 1<<62).Draw(t, label+"WideHi")), uint(rapid.IntRange(25, 62).Draw(t, label+"WideShift")))
 		case 4:
 			z = new(big.Int).Lsh(big.NewInt(rapid.Int64Range(1, 1<<62).Draw(t, label+"BigHi")), uint(rapid.IntRange(1, 60).Draw(t, label+"Shift")))
 		default:
 			z = new(big.Int).SetUint64(uint64(1)<<63 - 1 + uint64(rapid.IntRange(0, 2).Draw(t, label+"Edge")))
 		}
-		if !avoid[z.String()] || i > 6 {
+		if i > 6 {
+			for avoid[z.String()] {
+				z.Add(z, big.NewInt(1))
+			}
+		}
+		if !avoid[z.String()] {
 			return z.String()
 		}
 	}
@@ -1015,7 +1202,9 @@ func genAction(t *rapid.T, m *model, i int) action {
 	a := action{Kind: kind}
 	switch kind {
 	case "wipeout":
-		a.Target = weighted(t, "target", []string{"", "ca", "keys"}, []int{40, 30, 30})
+		// mostly the three documented forms; a few command lines outside them (the property's own
+		// "all", and two arguments)
+		a.Target = weighted(t, "target", []string{"", "ca", "keys", "all", "ca keys", "keys ca"}, []int{36, 27, 27, 4, 3, 3})
 		return a
 	case "bootstrap":
 		if rapid.Bool().Draw(t, "rootCNSet") {
@@ -1033,12 +1222,23 @@ func genAction(t *rapid.T, m *model, i int) action {
 			a.SignSerial = genSerial(t, "signSerial", map[string]bool{rs: true, "0": true})
 		}
 		a.Time = genTime(t, "t0", t0Lo, t0Hi)
-		if hasCA || hasKeys {
-			a.Overwrite = rapid.IntRange(0, 9).Draw(t, "overwrite") < 7
-		} else {
-			a.Overwrite = rapid.IntRange(0, 9).Draw(t, "overwrite") == 0
+		if rapid.IntRange(0, 9).Draw(t, "noTimestamp") == 0 {
+			a.Time = "" // the command dates its certificates itself
 		}
-		a.KeepGoing = rapid.IntRange(0, 9).Draw(t, "keepGoing") == 0
+		switch {
+		case o.Root != nil && !hasKeys:
+			// certificates without keys (after `wipeout keys`): the one state in which a bootstrap
+			// without --overwrite gets as far as the authority, so this is where the no-clobber clause
+			// is under pressure, with and without --keep_going
+			a.Overwrite = rapid.IntRange(0, 9).Draw(t, "overwrite") < 4
+			a.KeepGoing = rapid.IntRange(0, 9).Draw(t, "keepGoing") < 4
+		case hasCA || hasKeys:
+			a.Overwrite = rapid.IntRange(0, 9).Draw(t, "overwrite") < 7
+			a.KeepGoing = rapid.IntRange(0, 9).Draw(t, "keepGoing") == 0
+		default:
+			a.Overwrite = rapid.IntRange(0, 9).Draw(t, "overwrite") == 0
+			a.KeepGoing = rapid.IntRange(0, 9).Draw(t, "keepGoing") == 0
+		}
 		return a
 	}
 	// rotate
@@ -1058,14 +1258,16 @@ func genAction(t *rapid.T, m *model, i int) action {
 	default:
 		a.SignCN = prevCN
 	}
+	collide := false
 	switch sk := rapid.IntRange(0, 9).Draw(t, "rotSerial"); {
-	case sk < 6: // default: predecessor + 1
+	case sk < 5: // default: predecessor + 1
 		if sk == 0 {
 			a.SignSerial = "0" // the documented spelling of "default"
 		}
-	case sk < 9:
+	case sk < 8:
 		a.SignSerial = genSerial(t, "override", used)
 	default: // collide with an existing certificate's subject serial (and its common name)
+		collide = true
 		var ser []string
 		for n, c := range o.Certs {
 			if n != o.RootName {
@@ -1086,20 +1288,33 @@ func genAction(t *rapid.T, m *model, i int) action {
 		lo, hi = o.Root.NotBefore, o.Root.NotAfter
 	}
 	a.Time = genTime(t, "t", lo, hi)
-	a.Overwrite = rapid.IntRange(0, 9).Draw(t, "overwrite") == 0
-	a.KeepGoing = rapid.IntRange(0, 9).Draw(t, "keepGoing") == 0
+	if rapid.IntRange(0, 9).Draw(t, "noTimestamp") == 0 {
+		a.Time = "" // the command dates the certificate itself (whether "now" lies in the root's validity does not matter to what is judged: the certificate is dated when it was made)
+	}
+	if collide {
+		// a rotation aimed at an existing object: refused without flags, replaced with --overwrite,
+		// kept with --keep_going - all three in real numbers
+		a.Overwrite = rapid.IntRange(0, 9).Draw(t, "overwrite") < 2
+		a.KeepGoing = rapid.IntRange(0, 9).Draw(t, "keepGoing") < 4
+	} else {
+		a.Overwrite = rapid.IntRange(0, 9).Draw(t, "overwrite") == 0
+		a.KeepGoing = rapid.IntRange(0, 9).Draw(t, "keepGoing") == 0
+	}
 	return a
 }
 
 var combos = [][2]string{{"memkm", "memca"}, {"localkm", "localca"}, {"memkm", "localca"}, {"localkm", "memca"}}
 
-const histRule = "rapid state machine over CLI command histories: component pair drawn from {memkm,localkm} x {memca, localca = gcsca over storage/local in a temp dir} (the four pairs testing/nonprod ships), 1..7 commands, each executed through a FRESH cmd.MakeApp tree with fresh command components (localkm reloads keys from its directory, localca re-reads the manifest) and only the persistent state (key files / in-memory key store, bucket directory / memca object) carried over. Commands: bootstrap (--root_key_cn, --signing_key_cn, --root_key_serial, --initial_signing_key_serial drawn or defaulted, --timestamp in 2001..2040 with fractional seconds and zone offsets, --overwrite, --keep_going), rotate (--signing_key_cn default/previous/new, --rotated_key_serial_override absent / 0 / fresh / colliding with a stored certificate, --timestamp anywhere in the served root's validity incl. both end points, --overwrite, --keep_going), wipeout [ca|keys]; next command weighted by what is observable (mostly sensible, a few out-of-order commands). Oracle after every command, reading back through a fresh authority and signer: no .crt store object changed or vanished unless --overwrite or wipeout ca|all; no live key name silently names another key; a command that fails must leave the state untouched to be continued (a failed command WITH side effects ends the history: failure atomicity is C10). After a successful bootstrap/rotate: root self-signed, IsCA, KeyUsageCertSign, NotAfter-NotBefore = 9131 days, dated at --timestamp; primary's certificate and every certificate of the current chain: not CA, digital-signature and no cert-sign usage, SHA256WithRSAPSS, issuer = root and signature verifies under it, NotBefore = creating command's --timestamp, lifetime 1826 days, certificate serial = subject serial, subject serial = flag value or predecessor+1; Signer.Sign succeeds for the primary and fails for every other signing key name created since the last key wipeout; a rotation's new key version name was never used since the last key wipeout (a successful bootstrap --overwrite, which is documented to replace existing keys, also resets the names whose keys are gone; a key version of the superseded chain that is still alive keeps counting). After wipeout ca|all: no root/primary/certificate readable, no .crt object; after wipeout keys|all: no key signs or has a public key, no .pem file. non-trivial = >=2 successful rotations, or a wipeout followed by a successful bootstrap, or a successful re-bootstrap with --overwrite over existing state; distinct = (pair, command kinds with flag classes and outcomes)"
+const histRule = "rapid state machine over CLI command histories: component pair drawn from {memkm,localkm} x {memca, localca = gcsca over storage/local in a temp dir} (the four pairs testing/nonprod ships), 2..7 commands, each executed through a FRESH cmd.MakeApp tree with fresh command components (localkm reloads keys from its directory, localca re-reads the manifest) and only the persistent state (key files / in-memory key store, bucket directory / memca object) carried over. Commands: bootstrap (--root_key_cn, --signing_key_cn, --root_key_serial, --initial_signing_key_serial drawn or defaulted, --timestamp in 2001..2040 with fractional seconds and zone offsets, --overwrite, --keep_going), rotate (--signing_key_cn default/previous/new, --rotated_key_serial_override absent / 0 / fresh / colliding with a stored certificate, --timestamp anywhere in the served root's validity incl. both end points, --overwrite, --keep_going), wipeout [ca|keys]; next command weighted by what is observable (mostly sensible, a few out-of-order commands). Oracle after every command, reading back through a fresh authority and signer: no .crt store object changed or vanished unless --overwrite or wipeout ca|all; no live key name silently names another key; a command that fails must leave the state untouched to be continued (a failed command WITH side effects ends the history: failure atomicity is C10). After a successful bootstrap/rotate: root self-signed, IsCA, KeyUsageCertSign, NotAfter-NotBefore = 9131 days, dated at --timestamp; primary's certificate and every certificate of the current chain: not CA, digital-signature and no cert-sign usage, SHA256WithRSAPSS, issuer = root and signature verifies under it, NotBefore = creating command's --timestamp, lifetime 1826 days, certificate serial = subject serial, subject serial = flag value or predecessor+1; Signer.Sign succeeds for the primary and fails for every other signing key name created since the last key wipeout; a rotation's new key version name was never used since the last key wipeout (a successful bootstrap --overwrite, which is documented to replace existing keys, also resets the names whose keys are gone; a key version of the superseded chain that is still alive keeps counting). After a successful wipeout, for the components its command line names (no argument, or a command line naming neither documented literal such as `wipeout all`, = both; `ca keys` = both): no root certificate or certificate readable and no .crt object (ca); no key signs, no .pem file (keys); a wipeout with an undocumented command line that reports success without doing that is one root cause (wipeout-argument-silently-ignored). Added oracles: the certificate served for a key version whose key is alive carries exactly that key (Signer.PublicKey); every certificate a command makes appear, under whatever name, gets an expectation and is judged; a bootstrap/rotate run WITHOUT --timestamp (10%) must date its certificates between the instants read right before and after the command (the only use of the clock: an interval that holds for every correct implementation); after a refused command that left side effects, a key version it created that is neither primary nor root must not sign (everything else about half-done commands is C10). Generator pressure: rotations colliding with a stored certificate 20% (of which --keep_going 40%, --overwrite 20%), bootstraps over certificates-without-keys with --keep_going 40%, undocumented wipeout command lines 10%. non-trivial = >=2 successful rotations, or a wipeout followed by a successful bootstrap, or a successful re-bootstrap with --overwrite over existing state whose new chain was rotated, or a --keep_going command aimed at an existing object of the store-backed authority; distinct = (pair, command kinds with flag classes and outcomes)"
 
 func actionClass(a action, out string) string {
 	s := a.Kind
 	if a.Kind == "wipeout" {
 		if a.Target == "" {
 			return s + ":all/" + out
+		}
+		if _, _, literal := a.wipes(); literal {
+			return s + ":literal[" + a.Target + "]/" + out
 		}
 		return s + ":" + a.Target + "/" + out
 	}
@@ -1116,6 +1331,9 @@ func actionClass(a action, out string) string {
 	}
 	if a.KeepGoing {
 		s += "+kg"
+	}
+	if a.Time == "" {
+		s += "+notime"
 	}
 	return s + "/" + out
 }
@@ -1162,7 +1380,9 @@ func TestHistories(t *testing.T) {
 			canon = append(canon, c)
 			ev.Class("history", "cmd "+c)
 		}
-		nontrivial := m.rotations >= 2 || m.wipeThenBoot || m.rebootOver
+		// a re-bootstrap with --overwrite only counts when the new chain was also rotated at least
+		// once (otherwise it is one more single-bootstrap case)
+		nontrivial := m.rotations >= 2 || m.wipeThenBoot || m.rebootOverRotated || m.sawKGCollision
 		cls := pair[0] + "+" + pair[1]
 		if m.c10Stop {
 			ev.Class("history", "ended-by-failed-command-with-side-effects")
@@ -1170,7 +1390,13 @@ func TestHistories(t *testing.T) {
 		for _, f := range []struct {
 			on   bool
 			name string
-		}{{m.rotations >= 2, ">=2 rotations"}, {m.wipeThenBoot, "wipeout then bootstrap"}, {m.rebootOver, "re-bootstrap with overwrite"}} {
+		}{{m.rotations >= 2, ">=2 rotations"}, {m.wipeThenBoot, "wipeout then bootstrap"}, {m.rebootOver, "re-bootstrap with overwrite"}, {m.rebootOverRotated, "re-bootstrap with overwrite, then rotated"},
+			{m.maxRotInChain == 0, "shape: longest run of rotations in one chain = 0"}, {m.maxRotInChain == 1, "shape: longest run of rotations in one chain = 1"},
+			{m.maxRotInChain == 2, "shape: longest run of rotations in one chain = 2"}, {m.maxRotInChain >= 3, "shape: longest run of rotations in one chain >= 3"},
+			{m.sawNoTime, "shape: a successful bootstrap/rotate without --timestamp"}, {m.sawKGCollision, "shape: --keep_going (no --overwrite) aimed at an existing object"},
+			{m.sawLiteralWipe, "shape: successful wipeout with an undocumented command line"}, {m.sawNoClobberPressure, "shape: no-clobber judged under pressure"},
+			{m.sawPubKeyJudged, "shape: certificate key judged against a live key"}, {m.inconclusive, "inconclusive/state-unobservable"},
+			{len(m.knownHits) > 0, "ended-by-known-finding"}} {
 			if f.on {
 				ev.Class("history", f.name)
 			}
@@ -1296,11 +1522,7 @@ func TestLifeCycleSmoke(t *testing.T) {
 				action{Kind: "bootstrap", Time: "2030-01-01T00:00:00Z"},
 				action{Kind: "wipeout", Target: "keys"},
 				action{Kind: "wipeout", Target: "ca"})
-			for i, o := range m.outcomes {
-				if o != "ok" {
-					t.Fatalf("harness: command %d of the smoke history did not succeed: %s", i+1, m.history())
-				}
-			}
+			expectAllOK(t, m, "smoke history")
 		})
 	}
 }
